@@ -12,7 +12,9 @@ import json, os, sys, time, threading, hashlib, re
 VERIF = os.path.abspath(os.path.join(os.path.dirname(__file__), "..", "..", ".."))
 REPO = os.environ.get("VERIF_REPO", "/repo")
 BUILD = os.path.join(VERIF, "build")
-EVID = os.path.join(VERIF, "evidence")
+# runs against another tree (VERIF_REPO) must not overwrite the evidence of the registered checks
+EVID = os.path.join(VERIF, "evidence") if os.path.abspath(REPO) == "/repo" else os.path.join(
+    BUILD, "shadow", hashlib.sha256(os.path.abspath(REPO).encode()).hexdigest()[:12], "evidence")
 REPLAYS = os.path.join(EVID, "replays")
 
 HOLDS, VIOLATION, KNOWN, INCONCLUSIVE = "HOLDS", "VIOLATION", "KNOWN", "INCONCLUSIVE"
@@ -205,3 +207,33 @@ class Run:
 
 def stable_hash(s):
     return hashlib.sha256(s.encode()).hexdigest()[:12]
+
+
+def crate_dirs(rel_crate_dir, name=None):
+    """(crate_dir, target_dir) for an out-of-tree engine crate whose Cargo.toml has path deps on /repo.
+
+    Default: the crate as committed and /verif/build/<name>. When VERIF_REPO points somewhere else
+    (a scratch worktree with a candidate change applied) a shadow copy of the crate is made under
+    /verif/build/shadow/<tag>/ with every `/repo/` in Cargo.toml rewritten, and its own target dir, so
+    several trees can be checked concurrently without touching /repo."""
+    src = os.path.join(VERIF, rel_crate_dir)
+    name = name or os.path.basename(rel_crate_dir.rstrip("/"))
+    if os.path.abspath(REPO) == "/repo":
+        return src, os.path.join(BUILD, name)
+    tag = stable_hash(os.path.abspath(REPO))
+    dst = os.path.join(BUILD, "shadow", tag, name)
+    os.makedirs(dst, exist_ok=True)
+    for f in os.listdir(src):
+        s, d = os.path.join(src, f), os.path.join(dst, f)
+        if f in ("target",):
+            continue
+        if f == "Cargo.toml":
+            txt = open(s).read().replace('"/repo/', '"' + os.path.abspath(REPO) + '/')
+            if not os.path.exists(d) or open(d).read() != txt:
+                open(d, "w").write(txt)
+        elif f == "Cargo.lock":
+            import shutil
+            shutil.copyfile(s, d)
+        elif not os.path.lexists(d):
+            os.symlink(s, d)
+    return dst, os.path.join(BUILD, "shadow", tag, name + "-target")
